@@ -190,7 +190,8 @@ pub fn check_deep_n(q: &EllQ, listed_kf1: bool, nbear: usize, part: &mut Part) -
     let cell = PI / 3.0f64.sqrt() / (1u64 << d) as f64;
     for k in 0..nbear {
       let bearing = k as f64 * (TWO_PI / nbear as f64) + 0.05;
-      for f in [0.0, 0.3, 0.7, (1.0 - 0.5 * cell / q.a).max(0.5), 1.0 - 1e-6] {
+      let f_rim = 1.0 - (2.0 * margin / q.a).max(2e-6); // just inside the margin of "robustly inside"
+      for f in [0.0, 0.3, 0.7, 0.9, (1.0 - 0.5 * cell / q.a).max(0.5), f_rim, 1.0 - 1e-6] {
         let (l, b) = destination(q.lon, q.lat, bearing, q.a * f);
         let h = match guarded(move || nested::hash(d, l, b)) {
           Ok(h) if h < n_hash(d) => h,
